@@ -30,7 +30,7 @@ ASSUMPTIONS = ["node names and keys are str (HashClient builds node names as 'ho
                "normalize_server_spec spelling equivalence is only checked on an enumerated grammar of spellings (bounded stand-in)"]
 NOT_COVERED = ["'keys spread over all servers' is a statistical statement about murmur3's output distribution: no contract expresses it",
                "bytes keys (formatted through repr) are covered only as an uninterpreted rendering"]
-BUDGET = {"quick": 30, "thorough": 120}
+BUDGET = {"quick": 40, "thorough": 120}
 DEPENDS = ["C14"]      # murmur3_32 is the hash function of the published rule
 
 S = z3.StringSort()
